@@ -4,6 +4,7 @@
    - UnfoldFormula: the clause list is the conjunctive normal form of the shifted formula (unfold_sat). *)
 From Coq Require Import List Bool Arith ZArith Lia String.
 Require Import GenPrelude TheoryPrelude FormPrelude FromHeadForm HT TEL TELext PrefixSpec Laws HeadShift BodyForm.
+Require Export HeadDefs.
 Local Open Scope string_scope.
 Local Open Scope nat_scope.
 Section HeadForm.
@@ -12,18 +13,7 @@ Variable h : nat.
 Variable ini fin : A.                              (* the marker atoms __initial / __final *)
 Notation hf := (hf A).
 Notation tf := (tf A).
-Fixpoint denote (e : hexp) (l r : hf) (n : nat) : hf :=
-  match e with
-  | HxRhs => r
-  | HxLhs => l
-  | HxClause c a b => if c then HAnd A (denote a l r n) (denote b l r n) else HOr A (denote a l r n) (denote b l r n)
-  | HxNeg a => HNeg A (denote a l r n)
-  | HxNext c a w => HNx A (cntv c n) w (denote a l r n)
-  | HxUntil lhs rhs u => match lhs with Some x => HUn A u (denote x l r n) (denote rhs l r n) | None => HUn1 A u (denote rhs l r n) end
-  | HxAtomKw name => if String.eqb name "__initial" then HAt A ini else if String.eqb name "__final" then HAt A fin else HConst A false
-  | HxConst b => HConst A b
-  | HxIfZero a b => if n =? 0 then denote a l r n else denote b l r n
-  end.
+Notation denote := (HeadDefs.denote A ini fin).
 (* head formulas as formulas of the specification *)
 Fixpoint emb (p : hf) : tf :=
   match p with
@@ -100,7 +90,7 @@ Proof. apply tsat_final. Qed.
 Theorem head_create_sound (H T : trace A) : tle A H T -> markers H -> markers T -> Forall (head_entry_ok H T) head_doc_ops.
 Proof.
   intros L MH MT. unfold head_doc_ops. repeat (apply Forall_cons || apply Forall_nil); unfold head_entry_ok; cbn [fst snd head_create_gen head_docf];
-    intros l r n k Hk; cbn [denote cntv].
+    intros l r n k Hk; cbn [HeadDefs.denote cntv].
   - now rewrite (emb_hsat H T L).
   - now rewrite (emb_hsat H T L).
   - now rewrite (emb_hsat H T L).
@@ -132,7 +122,7 @@ Theorem head_keyword_values (H T : trace A) : markers T -> forall k, k <= h ->
   option_map (fun e => hsat A h H T (denote e (HConst A false) (HConst A false) 0) k) (head_keyword_gen "true") = Some true /\
   option_map (fun e => hsat A h H T (denote e (HConst A false) (HConst A false) 0) k) (head_keyword_gen "false") = Some false.
 Proof.
-  intros MT k Hk. destruct (MT k Hk) as [Tf Ti]. cbn [head_keyword_gen option_map denote String.eqb Ascii.eqb Bool.eqb HeadShift.hsat HeadShift.csat].
+  intros MT k Hk. destruct (MT k Hk) as [Tf Ti]. cbn [head_keyword_gen option_map HeadDefs.denote String.eqb Ascii.eqb Bool.eqb HeadShift.hsat HeadShift.csat].
   rewrite Tf, Ti, !negb_involutive. repeat split; reflexivity.
 Qed.
 (* ---- ShiftFormula: the model HeadShift.shift takes the regenerated decisions ---- *)
@@ -170,12 +160,7 @@ Lemma head_step_arith step timestep : timestep <= step ->
   head_shift_amount_gen step timestep = Some (Z.of_nat (step - timestep)) /\ head_requeue_step_gen step = Some (Z.of_nat (S step)).
 Proof. intros L. unfold head_shift_amount_gen, head_requeue_step_gen. cbn [olift2]. split; f_equal; lia. Qed.
 (* ---- UnfoldFormula: conjunctions concatenate the clause lists, disjunctions take one clause per combination ---- *)
-Fixpoint unfold (g : sf A) : list (list (sf A)) :=
-  match g with
-  | SAnd _ x y => if unfold_conjunction_concatenates_gen then (unfold x ++ unfold y)%list else []
-  | SOr _ x y => if unfold_disjunction_is_product_gen then flat_map (fun c1 => map (fun c2 => (c1 ++ c2)%list) (unfold y)) (unfold x) else []
-  | leaf => [[leaf]]
-  end.
+Notation unfold := (HeadDefs.unfold A).
 Definition clause_sat (H T : trace A) (k : nat) (c : list (sf A)) : bool := existsb (fun l => ssat A h H T l k) c.
 Lemma existsb_app_sat H T k c1 c2 : clause_sat H T k ((c1 ++ c2)%list) = clause_sat H T k c1 || clause_sat H T k c2.
 Proof. unfold clause_sat. apply existsb_app. Qed.
@@ -193,7 +178,7 @@ Proof.
 Qed.
 Theorem unfold_sat (H T : trace A) k : forall g, forallb (clause_sat H T k) (unfold g) = ssat A h H T g k.
 Proof.
-  induction g as [a|x IHx y IHy|x IHx y IHy|d x|n w x]; cbn [unfold forallb clause_sat existsb HeadShift.ssat]; try now rewrite orb_false_r, andb_true_r.
+  induction g as [a|x IHx y IHy|x IHx y IHy|d x|n w x]; cbn [HeadDefs.unfold forallb clause_sat existsb HeadShift.ssat]; try now rewrite orb_false_r, andb_true_r.
   - unfold unfold_conjunction_concatenates_gen. now rewrite forallb_app, IHx, IHy.
   - unfold unfold_disjunction_is_product_gen. now rewrite forallb_product, IHx, IHy.
 Qed.
